@@ -45,10 +45,11 @@ class EnumV:
 
 class SymEnum:
     """enum value whose variant is not decided yet; forced (by a fork) the first time it is inspected"""
-    __slots__ = ("id", "ty", "tdef", "targs", "name", "variants", "crate")
+    __slots__ = ("id", "ty", "tdef", "targs", "name", "variants", "crate", "disc")
 
-    def __init__(self, id, ty, tdef, targs, name, variants=None, crate=None):
+    def __init__(self, id, ty, tdef, targs, name, variants=None, crate=None, disc=None):
         self.id, self.ty, self.tdef, self.targs, self.name, self.variants, self.crate = id, ty, tdef, targs, name, variants, crate
+        self.disc = disc          # z3 Int = variant index (always present for field-less enums; lets specs talk about an unforced value)
 
     def __repr__(self): return f"<?{self.ty} {self.name}>"
 
